@@ -66,22 +66,25 @@ pub use tracing_core::{metadata::ParseLevelFilterError, LevelFilter};
 pub const STATIC_MAX_LEVEL: LevelFilter = get_max_level_inner();
 
 const fn get_max_level_inner() -> LevelFilter {
+    // In release builds a `release_max_level_*` feature takes precedence...
     if cfg!(not(debug_assertions)) {
         if cfg!(feature = "release_max_level_off") {
-            LevelFilter::OFF
+            return LevelFilter::OFF;
         } else if cfg!(feature = "release_max_level_error") {
-            LevelFilter::ERROR
+            return LevelFilter::ERROR;
         } else if cfg!(feature = "release_max_level_warn") {
-            LevelFilter::WARN
+            return LevelFilter::WARN;
         } else if cfg!(feature = "release_max_level_info") {
-            LevelFilter::INFO
+            return LevelFilter::INFO;
         } else if cfg!(feature = "release_max_level_debug") {
-            LevelFilter::DEBUG
-        } else {
-            // Same as branch cfg!(feature = "release_max_level_trace")
-            LevelFilter::TRACE
+            return LevelFilter::DEBUG;
+        } else if cfg!(feature = "release_max_level_trace") {
+            return LevelFilter::TRACE;
         }
-    } else if cfg!(feature = "max_level_off") {
+    }
+
+    // ...and without one, the `max_level_*` features apply to every build.
+    if cfg!(feature = "max_level_off") {
         LevelFilter::OFF
     } else if cfg!(feature = "max_level_error") {
         LevelFilter::ERROR
